@@ -267,18 +267,24 @@ def job_dak(job):
             setattr(rg, name, orig)
 
 
-def replay_second_call(model):
+def replay_second_call(model, boxed=False):
     """Two real calls in sequence at one reservoir temperature with different pseudocritical points: the second
     result must be a root of the equation at ITS OWN reduced temperature."""
     from bluebonnet.fluids import gas
-    m = model_floats(model, ["Tr", "pr", "TpcR", "ppc", "TpcR2", "ppc2", "pr2"], default=dict(TpcR=380.0, ppc=650.0, TpcR2=340.0, ppc2=670.0, pr2=4.0))
+    m = model_floats(model, ["Tr", "pr", "TpcR", "ppc", "TpcR2", "ppc2", "pr2"], default=dict(Tr=1.5, pr=2.0, TpcR=380.0, ppc=650.0, TpcR2=340.0, ppc2=670.0, pr2=4.0))
     Tabs = m["Tr"] * m["TpcR"]
     T = Tabs - 459.67
+    if boxed:
+        import numpy as np
+        T = np.array(T)           # the reservoir temperature kept by the caller as a 0-d array (one object for both calls)
     try:
         gas.z_factor_DAK(T, m["pr"] * m["ppc"], m["TpcR"] - 459.67, m["ppc"])
-        z2 = float(gas.z_factor_DAK(T, m["pr2"] * m["ppc2"], m["TpcR2"] - 459.67, m["ppc2"]))
+        z2 = float(gas.z_factor_DAK(T, m["pr2"] * m["ppc2"], (np.array(m["TpcR2"] - 459.67) if boxed else m["TpcR2"] - 459.67), m["ppc2"]))
     except Exception as ex:  # noqa: BLE001
         return False, {"what": f"z_factor_DAK raised {ex!r}", "inputs": m}
+    if boxed and float(T) != Tabs - 459.67:
+        return True, {"what": f"z_factor_DAK changed the caller's 0-d temperature array from {Tabs - 459.67!r} to {float(T)!r}", "inputs": m}
+    T = float(T)
     Tr2 = Tabs / m["TpcR2"]
     rho = 0.27 * m["pr2"] / (z2 * Tr2)
     res = dak_residual(rho, Tr2, m["pr2"], math.exp, num=float, deviation=True)
@@ -287,9 +293,10 @@ def replay_second_call(model):
                          f"Tpc={m['TpcR2'] - 459.67:.6g}, ppc={m['ppc2']:.6g}) = {z2!r} leaves DAK residual {res!r} at its own T_r={Tr2:.6g}", "inputs": m}
 
 
-def job_history(job):
+def job_history(job, boxed=False):
     """The result of a call must not depend on earlier calls (no state carried between gases): two calls on one loaded
-    module with the same reservoir temperature object and different pseudocritical points / pressures."""
+    module with the same reservoir temperature object and different pseudocritical points / pressures.
+    `boxed`: the temperatures are 0-d arrays (mutable objects the caller keeps); they must also be left alone."""
     job.solve_defaults = {"elim": True}
     gas = load_sym("bluebonnet.fluids.gas", **SS.rebind())
     job.encoded(gas, "z_factor_DAK")
@@ -302,23 +309,35 @@ def job_history(job):
     Tr2 = Tabs / vs["TpcR2"]
     dom += [T.b_le(T.Poly.const(Fraction("1.05")), P(Tr2)), T.b_le(P(Tr2), T.Poly.const(3))]
     Tin = Tabs - K("459.67")
+    rp2 = (replay_second_call, {"boxed": boxed})
+    btag = " (0-d array temperatures)" if boxed else ""
 
     def run():
+        from ..sx.sym import SymBox
         SS.OptCalls.reset()
         SS.reset_names()
         SS.OptCalls.brentq_sign_decision = False
-        gas.z_factor_DAK(Tin, vs["pr"] * vs["ppc"], vs["TpcR"] - K("459.67"), vs["ppc"])
+        t_in = SymBox(P(Tin)) if boxed else Tin
+        tpc2 = SymBox(P(vs["TpcR2"] - K("459.67"))) if boxed else vs["TpcR2"] - K("459.67")
+        gas.z_factor_DAK(t_in, vs["pr"] * vs["ppc"], vs["TpcR"] - K("459.67"), vs["ppc"])
         n1 = len(SS.OptCalls.brentq) + len(SS.OptCalls.minimize)
-        z2 = gas.z_factor_DAK(Tin, vs["pr2"] * vs["ppc2"], vs["TpcR2"] - K("459.67"), vs["ppc2"])
+        z2 = gas.z_factor_DAK(t_in, vs["pr2"] * vs["ppc2"], tpc2, vs["ppc2"])
         calls = list(SS.OptCalls.brentq) + list(SS.OptCalls.minimize)
-        return z2, calls[n1:]
+        touched = boxed and (t_in.p != P(Tin) or tpc2.p != P(vs["TpcR2"] - K("459.67")))
+        return z2, calls[n1:], touched
 
     res = paths(job, run, dom, catch=(ValueError, ZeroDivisionError, ArithmeticError))
     done = 0
     for k, pr_ in enumerate(res):
         if pr_.exc is not None:
             continue
-        z2, calls = pr_.value
+        z2, calls, touched = pr_.value
+        if boxed:
+            if touched:
+                job._violation(f"dak/the caller's 0-d temperature arrays are left alone[path{k}]", {},
+                               {"what": "z_factor_DAK wrote to a temperature argument", "replayer": "replay_second_call", "replayer_kwargs": {"boxed": True}}, None)
+            else:
+                job.record(f"dak/the caller's 0-d temperature arrays are left alone[path{k}]", "unsat", 0.0, note="effect check on the path")
         if len(calls) != 1 or "root" not in calls[0]:
             continue        # minimiser form: the single-call job reports on it
         rho = calls[0]["root"]
@@ -326,15 +345,15 @@ def job_history(job):
         pc = pr_.pc + [T.b_lt(T.ZERO, P(rho))]
         F_dev = dak_residual(rho, Tr2, vs["pr2"], s_exp, deviation=True)
         bound = T.Poly.const(Fraction(1, 20 * 10**9))
-        job.prove(f"dak/second call at the same reservoir temperature is a root at its own T_r[path{k}]",
-                  pc + [T.b_or(T.b_lt(bound, P(F_dev)), T.b_lt(bound, T.p_neg(P(F_dev))))], bound="rectangle x rectangle", replay=replay_second_call)
-        job.prove(f"dak/second call: Z-formula[path{k}]", pc + [not_close(z2 * rho * Tr2, K("0.27") * vs["pr2"])], bound="rectangle x rectangle",
-                  replay=replay_second_call)
-        job.prove(f"dak/second call/reach[path{k}]", pc, expect="sat")
+        job.prove(f"dak/second call at the same reservoir temperature{btag} is a root at its own T_r[path{k}]",
+                  pc + [T.b_or(T.b_lt(bound, P(F_dev)), T.b_lt(bound, T.p_neg(P(F_dev))))], bound="rectangle x rectangle", replay=rp2)
+        job.prove(f"dak/second call{btag}: Z-formula[path{k}]", pc + [not_close(z2 * rho * Tr2, K("0.27") * vs["pr2"])], bound="rectangle x rectangle",
+                  replay=rp2)
+        job.prove(f"dak/second call{btag}/reach[path{k}]", pc, expect="sat")
         done += 1
     if not done and any("root" in c for r in res if r.exc is None for c in r.value[1]):
         job.errors.append("history: no path with two completed calls")
 
 
 def jobs(tier):
-    return [("dak", job_dak), ("history", job_history)]
+    return [("dak", job_dak), ("history", job_history), ("history-0d-temperatures", lambda j: job_history(j, True))]
